@@ -209,9 +209,10 @@ def run(rep):
         fw, jc = table[name]["_forward"], table[name]["_jacobian"]
         bounds = c01.bounds_of(tc, classes)
         cdef = c01.ctor_defaults_of(tc)
-        for i in jc[1]:
-            if i.rule == "R01.d":
-                rep.violation("R02.a", file, f"{name}._jacobian", i.construct, i.detail, line=i.line)
+        for meth_, res_ in (("_jacobian", jc), ("_forward", fw)):
+            for i in res_[1]:
+                if i.rule == "R01.d":
+                    rep.violation("R02.a", file, f"{name}.{meth_}", i.construct, i.detail, line=i.line)
         if fw[0] is None or jc[0] is None:
             if name in c01.OUTSIDE_CHAIN:
                 rep.notes.append(f"{name}: outside the chain vocabulary ({c01.OUTSIDE_CHAIN[name]})")
@@ -302,4 +303,26 @@ def run(rep):
             else:
                 rep.check(ok, "R02.d", file, f"{name}._jacobian", cons, det, line=line)
     rep.floor("computer-algebra Jacobian clauses", nalg, 8)
+    # R02.e avoidable overflow in the Jacobian (same clause as R01.h)
+    rep.rule("R02.e", "no avoidable overflow in _jacobian: an exp / sinh / cosh intermediate with an argument unbounded on the domain must overflow together with the result or propagate to its limit")
+    nov = 0
+    for name in c01.CATALOGUE:
+        tc = classes[name]
+        line = tc.methods["_jacobian"].lineno
+        try:
+            clauses = [c_ for c_ in symx.overflow_clauses(tc.methods["_forward"], tc.methods["_backward"], pq, jac=tc.methods["_jacobian"]) if c_[0].startswith("_jacobian")]
+        except Undecided as ex:
+            rep.notes.append(f"R02.e: {name} not modelled ({str(ex)[:60]})")
+            continue
+        nov += 1
+        if not clauses:
+            rep.proved("R02.e", file, f"{name}._jacobian", f"{name}: no exponential intermediate with an unbounded argument in _jacobian", line=line)
+        for clause, ok, det in clauses:
+            rep.check(ok, "R02.e", file, f"{name}._jacobian", f"{name}: {clause}", det, line=line)
+    rep.floor("Jacobians modelled for overflow", nov, 5)
+    # the sign analysis (R02.c) reads the declared parameter bounds: they hold only if the container enforces them on every write
+    from ..core import borrow
+    nb_ = borrow(rep, "C12", "R02.f", "declared parameter bounds are enforced on every write of a parameter vector (validation clauses decided for C12)",
+                 lambda e: e.rule == "R12.b")
+    rep.floor("bound-enforcement clauses taken over from C12", nb_, 3)
     return EXPLANATION
